@@ -11,7 +11,8 @@
      - type / bound check of every value;
      - the developer-mode lock `_check_developer_mode`: without `developer_mode`, every leaf marked
        developer must be equal (Python ==) to its default; nested settings objects are always entered;
-     - `Season_Definition` / `Weekday_Weekend_Definition`: every value is one of `options`.
+     - `Season_Definition` / `Weekday_Weekend_Definition`: every value is one of `options`, and `options` only
+       holds the names the split components know (summer/shoulder/winter, weekday/weekend).
    Not modelled (pure functions of the field values, so they accept again what a constructor accepted):
    the cross-field validators _check_alpha_final, _check_final_bounds_scalar,
    _check_initial_step_percentage, _check_reduce_splits_num_std; key / value lower-casing (documents
@@ -89,6 +90,8 @@ Definition member_of_options (names : list string) (dflt_options : list string) 
                  | Some (JArr l) => map (fun j => match j with JStr s => s | _ => "" end) l
                  | _ => dflt_options
                  end in
+  (* the option names are hard-wired in the split components: any other name is rejected *)
+  forallb (fun x => existsb (String.eqb x) dflt_options) options &&
   forallb (fun n => match get n o with
                     | Some (JStr s) => existsb (String.eqb s) options
                     | Some _ => false
